@@ -8,7 +8,10 @@ from common import (penman, layout, Graph, j_graph, j_tree, j_node, j_triple, py
 
 # ---------------------------------------------------------------- alphabets
 
-VARS = ['a', 'b', 'c', 'd', 'e', 'x1', 'x2', '_', '_2', 'a2', 'b0', 'x01']
+VARS = ['a', 'b', 'c', 'd', 'e', 'x1', 'x2', '_', '_2', 'a2', 'b0', 'x01', 'top', 't']
+# a node named like a model's top variable gets an edge with that model's top role most of the time:
+# (top :TOP x) / (t :top x) are ordinary triples of an ordinary node
+TOP_DECL = {'top': ':TOP', 't': ':top'}
 CONCEPTS = ['alpha', 'beta', '_', '_2', 'Chase-01', '"str ing"', '"(x"', 'a', 'b', '7', 'have-mod-91', 'include-91',
             'own-01', 'have-03', 'ôter', '中', '_x', '"q~1"', '-', 'have-org-role-91', '٣', 'İ', '0', '1.5',
             '²-norm', '½life', 'Ⅷ-century', '①a', 'ǅungla', 'ʰa', 'e\u0301cole', 'ẞig', 'ﬁn', '\u0301x', 'ª1', '٣x']
@@ -171,8 +174,10 @@ class TreeGen:
         if maybe(rng, 0.06) and self.budget > 0 and depth < 12:
             # a concept-less node whose only branch opens a nested node
             return (var, [(role(rng, invert=False), self.node(depth + 1))])
-        for _ in range(n):
+        for k_ in range(n + (1 if var in TOP_DECL else 0)):
             ro = self.role_()
+            if var in TOP_DECL and k_ == 0 and maybe(rng, 0.7):
+                ro = TOP_DECL[var]
             if self.wf and ro.startswith(':instance'):
                 continue        # an explicit :instance role is a second way to write the concept
             ra = self.al()
@@ -521,6 +526,9 @@ def handbuilt_graph(rng, connected=True, nvars=None):
             j = rng.randrange(i)
             s, t = (vs[j], vs[i]) if maybe(rng, 0.6) else (vs[i], vs[j])
             triples.append((s, role(rng, invert=maybe(rng, 0.15)), t))
+    for v in vs:
+        if v in TOP_DECL and maybe(rng, 0.7):
+            triples.append((v, TOP_DECL[v], rng.choice(vs + ['7'])))
     for _ in range(rng.choice([0, 0, 1, 2, 3])):
         s = rng.choice(vs)
         k = rng.random()
